@@ -124,6 +124,11 @@ Definition set_supply (s : mstate) (v : Z) : mstate :=
 (* ---------- pools ---------- *)
 Definition pamount (p : pool) (is_long : bool) : Z := if is_long then p_long p else p_short p.
 
+(* token holdings of the market for one side: liquidity + swap impact + claimable fees
+   (BaseMarketExt::expected_min_token_balance_excluding_collateral_amount_for_one_token_side) *)
+Definition holdings (s : mstate) (is_long : bool) : Z :=
+  pamount (primary s) is_long + pamount (swap_impact s) is_long + pamount (fee s) is_long.
+
 (* PnlFactorKind *)
 Inductive pnl_kind := MaxAfterDeposit | MaxAfterWithdrawal | MaxForTrader | ForAdl | MinAfterAdl.
 
